@@ -1,31 +1,34 @@
-"""C07 — CborLen is exact (built-in impls part; token and derived-type cases are added by their slices)."""
+"""C07 — CborLen is exact: built-in impls (RT over the type registry), tokens (C11's TKE stream carries the token clause),
+and impls derived for structs and enums (DLEN over generated schemas, real derive macros)."""
 from lib import *
 import typegen as tg
+import C01 as _c01
+import C07d as _d
+import random
 
-RULE = ("RT <type> <value> over the ~115 registry instantiations of the built-in Encode/CborLen impls (same generator as C01, own seed "
-        "stream): the value is encoded and cbor_len computed; the real crate vs the extracted Coq model (bytes and len=). O= (implementation "
-        "only): len == bytes written, a slice of exactly len bytes suffices and one byte less fails. Values: every width boundary, "
-        "empty/23/24/255/256-element containers, nested combinations, seeded random. Non-trivial: the encoding is longer than 2 bytes.")
-ASSUMPTIONS = ["transparent wrappers (Box, Cell, RefCell, Wrapping, Cow, atomics) are erased in the model",
-               "Token lengths (F3-F5) and derived lengths (F6, F7) are covered by their own slices, not by these cases"]
+EXTRA_PROPS = ["C07d", "C11"]     # derived-type theorems; Token::cbor_len (C11_len) is pinned in Props/C11.v
+prepare = _d.prepare
+
+def route(line):
+    return _d.route(line) if line.startswith("DLEN") else "main"
+
+RULE = ("(1) RT <type> <value> over the ~115 registry instantiations of the built-in Encode/CborLen impls (same generator as C01, own seed "
+        "stream): cbor_len vs bytes written on the real crate and on the model, exact-size slice suffices, one byte less fails. "
+        "(2) " + _d.RULE + " (3) Token::cbor_len: checked by C11's TKE cases (every token variant with boundary payloads).")
+ASSUMPTIONS = ["transparent wrappers (Box, Cell, RefCell, Wrapping, Cow, atomics) are erased in the model"] + _d.ASSUMPTIONS
 
 def generate(tier, rng):
-    per = 300 if tier == "thorough" else 40
-    out = []
-    for key in tg.REGISTRY:
-        d = tg.parse_desc(key)
-        seen = set()
-        for _ in range(per):
-            v = tg.rust_order(d, tg.gen_value(d, rng))
-            t = tg.show(d, v)
-            if t in seen: continue
-            seen.add(t)
-            out.append("RT %s %s" % (key, t))
-    return out
+    derived = _d.generate(tier, rng)           # first: the schema world is keyed by the first bits of the rng (as in prepare)
+    builtin = [l for l in _c01.generate(tier, random.Random(rng.getrandbits(32))) if l.startswith("RT ")]
+    return builtin + derived
 
 def nontrivial(line, impl):
-    return len(impl.split(";")[0]) > 4
+    return _d.nontrivial(line, impl) if line.startswith("DLEN") else (len(impl.split(";")[0]) > 4)
 
 def classify(line, impl):
+    if line.startswith("DLEN"): return _d.classify(line, impl)
     t = line.split()
     return t[0] + ":" + t[1].split("(")[0] + (":refused" if impl.startswith("refused") else "")
+
+def in_known_class(cls, line, impl):
+    return line.startswith("DLEN") and _d.in_known_class(cls, line, impl)
